@@ -269,24 +269,19 @@ class MemorySource(DataSource):
             (STIX object): STIX object that has the supplied ID.
 
         """
+        # The latest of the versions which pass the filters (as the
+        # filesystem source does), not the latest version if it passes.
+        all_data = self.all_versions(
+            stix_id, _composite_filters=_composite_filters,
+        )
+
         stix_obj = None
-
-        mapped_value = self._data.get(stix_id)
-        if mapped_value:
-            if isinstance(mapped_value, _ObjectFamily):
-                stix_obj = mapped_value.latest_version
-            else:
-                stix_obj = mapped_value
-
-        if stix_obj:
-            all_filters = list(
-                itertools.chain(
-                    _composite_filters or [],
-                    self.filters,
-                ),
-            )
-
-            stix_obj = next(apply_common_filters([stix_obj], all_filters), None)
+        for candidate in all_data:
+            if stix_obj is None or (
+                "modified" in candidate and
+                candidate["modified"] > stix_obj["modified"]
+            ):
+                stix_obj = candidate
 
         return stix_obj
 
